@@ -110,6 +110,12 @@ class Handlers(UserDict):
         #   to a cached handler that was removed.
         self._resolve.cache_clear()  # type: ignore[attr-defined]
 
+    def __ior__(self, other: Any) -> Handlers:
+        # NOTE: UserDict.__ior__() updates self.data directly, bypassing
+        #   __setitem__() and, with it, the invalidation of the resolver cache.
+        self.update(other)
+        return self
+
     def _create_resolver(self) -> ResolverMethod:
         # PERF(kgriffs): Under PyPy the LRU is relatively expensive as compared
         #   to the common case of the self.data lookup succeeding. Using
